@@ -159,10 +159,10 @@ pub fn def() -> CheckDef {
         assumptions: vec!["observation = public accessors + byte hooks; opcode()/rcode() compared as the caller sees them (unnamed values show as Reserved)"],
         sections: vec![
             Box::new(ReplayOnly { name: "fuzz-bytes", check: check_raw }),
-            Box::new(PropSection { name: "reference", rule: "reference encodings, foreign layouts", strategy, cases: (60_000, 2_000_000), check }),
-            Box::new(PropSection { name: "large", rule: "suffix-sharing messages crossing 16 KiB", strategy: large_strategy, cases: (20_000, 300_000), check: check_large }),
+            Box::new(PropSection { name: "reference", rule: "reference encodings, foreign layouts", strategy, cases: (300_000, 4_000_000), check }),
+            Box::new(PropSection { name: "large", rule: "suffix-sharing messages crossing 16 KiB", strategy: large_strategy, cases: (60_000, 600_000), check: check_large }),
             Box::new(EnumSection { name: "words", rule: "all header words", enumerate: enum_words, check: check_word, exhaustive: true }),
-            Box::new(PropSection { name: "mutated", rule: "accepted mutated encodings", strategy: super::c01::mutated_strategy, cases: (60_000, 2_000_000), check: check_mutated }),
+            Box::new(PropSection { name: "mutated", rule: "accepted mutated encodings", strategy: super::c01::mutated_strategy, cases: (300_000, 4_000_000), check: check_mutated }),
         ],
     }
 }
